@@ -87,9 +87,15 @@ class JniGenerator(Generator):
             filename=Path("loader.cpp")
         )
 
+    @property
+    def java_support_package(self) -> list[str]:
+        """the package the Java generator writes NativeRunnable / NativeCompletion to"""
+        java_config = self.metadata.java.config
+        return list(java_config.package) + list(java_config.support_types_package)
+
     def generate_runnable(self):
         header_path = Path("pydjinni") / "coroutine" / "schedule.hpp"
-        java_runnable_type = self.metadata.java.base_package.split('.') + ["pydjinni", "NativeRunnable"]
+        java_runnable_type = self.java_support_package + ["NativeRunnable"]
         self.write_header(
             template="header/schedule.jinja2.hpp",
             filename=header_path,
@@ -106,7 +112,7 @@ class JniGenerator(Generator):
 
     def generate_completion(self):
         header_path = Path("pydjinni") / "coroutine" / "completion.hpp"
-        java_runnable_type = self.metadata.java.base_package.split('.') + ["pydjinni", "NativeCompletion"]
+        java_runnable_type = self.java_support_package + ["NativeCompletion"]
         self.write_header(
             template="header/completion.jinja2.hpp",
             filename=header_path,
